@@ -182,8 +182,19 @@ func person(r *rand.Rand, txt func() string) *sbom.Person {
 }
 
 // SPDXPackageNode: a package node using only attributes SPDX 2.3 can carry. force* < 0 = no forcing.
+// padded: class text sometimes carries leading/trailing spaces (JSON needs no escape for them).
+func padded(r *rand.Rand, s string) string {
+	switch r.Intn(10) {
+	case 0:
+		return " " + s
+	case 1:
+		return s + "  "
+	}
+	return s
+}
+
 func SPDXPackageNode(r *rand.Rand, id string, forceAlgo int) *sbom.Node {
-	txt := func() string { return TextSafe(r, 10) }
+	txt := func() string { return padded(r, TextSafe(r, 10)) }
 	// actor names: no parentheses/colon tricks are needed, SPDX actor strings are "name" or "name (email)"
 	actor := func() string { return TextPlain(r, 8) }
 	p := func() bool { return r.Intn(2) == 0 }
@@ -292,7 +303,7 @@ func SPDXPackageNode(r *rand.Rand, id string, forceAlgo int) *sbom.Node {
 
 // SPDXFileNode: a file node using only attributes SPDX 2.3 files can carry.
 func SPDXFileNode(r *rand.Rand, id string, forceAlgo int) *sbom.Node {
-	txt := func() string { return TextSafe(r, 10) }
+	txt := func() string { return padded(r, TextSafe(r, 10)) }
 	p := func() bool { return r.Intn(2) == 0 }
 	n := &sbom.Node{Id: id, Type: sbom.Node_FILE, Name: "./" + txt()}
 	if p() {
@@ -427,7 +438,7 @@ func IDCdx(r *rand.Rand) string {
 
 // CDXNode: a node with the CycloneDX-expressible attributes for spec version 14 or 15.
 func CDXNode(r *rand.Rand, id string, ver int, k int, first bool) *sbom.Node {
-	txt := func() string { return TextSafe(r, 10) }
+	txt := func() string { return padded(r, TextSafe(r, 10)) }
 	p := func() bool { return r.Intn(2) == 0 }
 	n := &sbom.Node{Id: id, Type: sbom.Node_PACKAGE}
 	purposes, ers := CDXPurposes14, CDXExtRef14
